@@ -4,7 +4,8 @@ A *config* is
     {"input": [rail, ...], "output": [rail, ...], "retrieval": [rail, ...],
      "rail_def": "subflow" | "flow",          # how the rail flows are declared
      "dialog": "general" | "predef" | "llm", # what the dialog rails do when they are selected
-     "exceptions": bool}                      # enable_rails_exceptions (a blocked message yields an exception event)
+     "exceptions": bool,                      # enable_rails_exceptions (a blocked message yields an exception event)
+     "text_from": "param" | "context"}        # the rail action gets the text as a parameter (`text=$user_message`) or reads it from the context
 and a *rail* is a rule table  [[needle, verdict], ...]  (first rule whose needle occurs in the text the rail is
 shown decides; no rule => accept) with  verdict = ["accept"] | ["reject"] | ["fault"] | ["append", t] | ["prepend", t] | ["replace", t].
 
@@ -61,8 +62,59 @@ def hostile_texts():
             names.update(re.findall(r"\$([A-Za-z_][A-Za-z_0-9]*)", src))
             names.update(re.findall(r"context(?:_updates)?\[\"([a-z_]+)\"\]", src))
             names.update(re.findall(r"context\.get\(\"([a-z_]+)\"", src))
-        _HOSTILE = list(HOSTILE_STATIC) + ["$" + n for n in sorted(names)]
+        _HOSTILE = list(HOSTILE_STATIC) + ["$" + n for n in sorted(names)] + [REFUSAL, INTERNAL_ERROR, "x" * 20000]
+        _HOSTILE = list(dict.fromkeys(_HOSTILE))
     return _HOSTILE
+
+
+_LITERALS = None
+
+
+def pick_hostile(rng):
+    """70 %: a text of `hostile_texts()`; 30 %: a string literal the code under test compares values with (`compared_literals()`)"""
+    global _LITERALS
+    if _LITERALS is None:
+        _LITERALS = [t for t in compared_literals() if t != CONTROL_SCRIPT] + [CONTROL_SCRIPT] * 3
+    if rng.random() < 0.7:
+        return rng.choice(hostile_texts())
+    t = rng.choice(_LITERALS)
+    return "$" + t if rng.random() < 0.15 else t
+
+
+CONTROL_SCRIPT = "(remove last message)"  # the in-band control script of the 1.0 response assembly (open finding `reply-text-is-control-script`)
+SCAN_FILES = ("nemoguardrails/rails/llm/llmrails.py", "nemoguardrails/rails/llm/utils.py", "nemoguardrails/colang/v1_0/runtime/runtime.py",
+              "nemoguardrails/colang/v1_0/runtime/flows.py", "nemoguardrails/colang/runtime.py", "nemoguardrails/actions/core.py",
+              "nemoguardrails/actions/action_dispatcher.py", "nemoguardrails/logging/processing_log.py", "nemoguardrails/utils.py",
+              "nemoguardrails/colang/v1_0/runtime/utils.py", "nemoguardrails/rails/llm/options.py")
+_STR_TESTS = {"startswith", "endswith", "find", "index", "split", "rsplit", "partition", "replace", "strip", "lstrip", "rstrip", "count", "match", "search", "sub", "removeprefix", "removesuffix"}
+
+
+def compared_literals():
+    """String literals the code between `generate(messages=…)` and the reply COMPARES a value with (operands of `==`, `!=`, `in`,
+    `not in`, arguments of str / re test methods), scanned from the code under test: a text equal to one of them (`Listen`,
+    `stop`, `(remove last message)`, `$`, …) is still only a text.  Non-empty, at most 40 characters, sorted."""
+    import ast
+
+    repo = os.environ.get("VERIF_REPO", "/repo")
+    found = set()
+    for rel in SCAN_FILES:
+        try:
+            tree = ast.parse(open(os.path.join(repo, rel), encoding="utf-8").read())
+        except (OSError, SyntaxError):
+            continue
+        for n in ast.walk(tree):
+            ops = []
+            if isinstance(n, ast.Compare):
+                ops = [n.left] + list(n.comparators)
+            elif isinstance(n, ast.Call) and isinstance(n.func, ast.Attribute) and n.func.attr in _STR_TESTS:
+                ops = list(n.args)
+            elif isinstance(n, ast.Subscript):
+                ops = [n.slice]  # keys looked up in events / contexts: `event["script"]`, `context["bot_message"]`
+            for o in ops:
+                for k in ast.walk(o):
+                    if isinstance(k, ast.Constant) and isinstance(k.value, str) and 0 < len(k.value) <= 40:
+                        found.add(k.value)
+    return sorted(found)
 
 
 def _setup():
@@ -140,7 +192,11 @@ def colang_source(cfg):
     for cat in ("input", "output", "retrieval"):
         for i, _ in enumerate(cfg.get(cat, [])):
             out.append(f"{kw} {rail_name(cat, i)}")
-            out.append(f'  $verdict = execute scripted_rail(cat="{cat}", idx={i}, text={var[cat]})')
+            if cfg.get("text_from", "param") == "context" and cat != "retrieval":
+                # like the shipped rails (`execute self_check_input`): the action reads the text from the context it is handed
+                out.append(f'  $verdict = execute scripted_rail(cat="{cat}", idx={i})')
+            else:
+                out.append(f'  $verdict = execute scripted_rail(cat="{cat}", idx={i}, text={var[cat]})')
             out.append('  if $verdict.kind == "reject"')
             if cfg.get("exceptions"):
                 out.append(f'    create event {exc[cat]}(message="blocked by {rail_name(cat, i)}")')
@@ -212,7 +268,7 @@ class Script:
 
 def _cfg_key(cfg):
     return (len(cfg.get("input", [])), len(cfg.get("output", [])), len(cfg.get("retrieval", [])), cfg.get("rail_def", "subflow"),
-            cfg.get("dialog", "general"), bool(cfg.get("exceptions")), cfg.get("predef_text", "Hello there"))
+            cfg.get("dialog", "general"), bool(cfg.get("exceptions")), cfg.get("predef_text", "Hello there"), cfg.get("text_from", "param"))
 
 
 def get_app(cfg):
@@ -230,7 +286,11 @@ def get_app(cfg):
         llm = FakeLLM(responses=[])
         app = LLMRails(config, llm=llm)
 
-    async def scripted_rail(cat: str, idx: int, text=None):
+    from_context = cfg.get("text_from", "param") == "context"
+
+    async def scripted_rail(cat: str, idx: int, text=None, context=None):
+        if from_context and cat != "retrieval":
+            text = (context or {}).get("user_message" if cat == "input" else "bot_message")
         script.calls.append([cat, idx, text])
         kind, new = apply_rail(script.cfg[cat][idx], text)
         if kind == "fault":
